@@ -11,13 +11,18 @@
 //!   sd     the datum in the serde data model.
 //!   float table  the dependencies' spellings of the datum's finite floats (see `float_table`).
 //!   X value      (every third case) to_value(d) with one random edit: an ill-typed input for from_value::<T>;
+//!                (every sixth case, when to_value(d) has a non-empty object) to_value(d) with REPEATED KEYS in
+//!                one of its objects (`j_dup`): the object of a map target (last value wins), of a struct
+//!                target or struct variant (`duplicate field`), the single-entry object of an enum;
 //!                adds ` | dx <sd|E>` to the observable.
 //! Observable: `dom=.. hyp=1 | ser <value> | de <sd> | rt=. | sj <value> | sh=. sh32=. | via <sd> | vrt=.`
 use crate::common::*;
 use json_syntax::{from_value, to_value, SerializeError, Value};
 use serde::de::DeserializeOwned;
 use serde::{Deserialize, Serialize};
-use std::collections::BTreeMap;
+use std::collections::hash_map::DefaultHasher;
+use std::collections::{BTreeMap, HashMap};
+use std::hash::{BuildHasherDefault, Hash};
 use std::fmt::Debug;
 
 // ------------------------------------------------------------------------------------------
@@ -613,6 +618,8 @@ const F64_SPECIAL: &[f64] = &[
     18446744073709551616.0, 1.8446744073709552e19, -9223372036854775808.0, 4294967296.0, 16777217.0,
     f64::MAX, f64::MIN, f64::MIN_POSITIVE, 5e-324, 2.2250738585072009e-308, 1e308, 1e-308, 123456.789, 0.3,
     2.5, 1e23, 8.41e21, 2e-323, 1.7976931348623157e308, 4.35, 0.000001, 100.0, 1e300,
+    // 0x3ab5c87fb0000000: exactly half-way between two binary32 values (sh32 = 0: C16_shape32_f64_midpoint)
+    7.038531e-26, -7.038531e-26,
 ];
 const F32_SPECIAL: &[f32] = &[
     0.0, -0.0, 1.0, -1.0, 0.1, 0.5, 5.0, 1e9, 1e10, 123456792.0, 16777216.0, 16777218.0, 1e-5, 1e-6, 3.4028235e38,
@@ -759,6 +766,29 @@ impl<K: Fam + Ord, V: Fam> Fam for BTreeMap<K, V> {
         }
         // a first key equal to the private number token is the known class K1: it gets its
         // own root type (TokMap); keep the ordinary maps clear of it
+        m
+    }
+    fn ty(e: &mut Env) -> Ty {
+        let k = K::kty(e);
+        Ty::Map(k, Box::new(V::ty(e)))
+    }
+}
+/// a HashMap with a fixed hasher (the iteration order, hence the recorded datum, is a function of the keys)
+pub type FixedHashMap<K, V> = HashMap<K, V, BuildHasherDefault<DefaultHasher>>;
+impl<K: Fam + Eq + Hash, V: Fam> Fam for FixedHashMap<K, V> {
+    fn gen(r: &mut Rng, d: usize) -> Self {
+        let mut m = FixedHashMap::default();
+        if d == 0 {
+            return m;
+        }
+        let n = match r.below(12) {
+            0 => 0,
+            1 if d <= 2 => r.range(8, 24),
+            _ => r.range(1, 4),
+        };
+        for _ in 0..n {
+            m.insert(K::gen(r, d - 1), V::gen(r, d - 1));
+        }
         m
     }
     fn ty(e: &mut Env) -> Ty {
@@ -1350,19 +1380,18 @@ fn j_edit(j: &mut J, at: &mut isize, r: &mut Rng) {
                 J::Obj(o)
             }
             (J::Obj(o), 2) if !o.is_empty() => {
-                // rename one key (never onto an existing one: repeated keys are not modelled for map targets)
+                // rename one key; the new key may coincide with another one (repeated key) or read as
+                // the same integer ("+1", "01" vs "1": one key of an integer-keyed map)
                 let mut o = o.clone();
                 let i = r.below(o.len());
-                let nk = match r.below(3) {
+                let nk = match r.below(5) {
                     0 => format!("{}x", o[i].0),
                     1 => o[i].0.chars().skip(1).collect(),
+                    2 => format!("0{}", o[i].0),
+                    3 => o[r.below(o.len())].0.clone(),
                     _ => format!("+{}", o[i].0),
                 };
-                // ... nor onto a key that reads as the same integer ("01", "+1" vs "1")
-                let num = |s: &str| s.parse::<i128>().ok();
-                if !o.iter().any(|(x, _)| *x == nk || (num(x).is_some() && num(x) == num(&nk))) {
-                    o[i].0 = nk;
-                }
+                o[i].0 = nk;
                 J::Obj(o)
             }
             (J::Obj(o), 3) => J::Arr(o.iter().map(|(_, x)| x.clone()).collect()),
@@ -1402,15 +1431,117 @@ fn j_edit(j: &mut J, at: &mut isize, r: &mut Rng) {
         _ => (),
     }
 }
+fn j_objects(j: &J) -> usize {
+    match j {
+        J::Arr(a) => a.iter().map(j_objects).sum(),
+        J::Obj(o) => (!o.is_empty()) as usize + o.iter().map(|(_, x)| j_objects(x)).sum::<usize>(),
+        _ => 0,
+    }
+}
+/// a respelling of an integer-looking key that reads as the same integer (Rust's FromStr: "+1", "01", "-0")
+fn respell_key(k: &str, r: &mut Rng) -> String {
+    let digits = !k.is_empty() && k.bytes().all(|b| b.is_ascii_digit());
+    let neg = k.len() > 1 && k.starts_with('-') && k[1..].bytes().all(|b| b.is_ascii_digit());
+    if digits {
+        match r.below(3) {
+            0 => format!("+{k}"),
+            1 => format!("0{k}"),
+            _ => format!("+00{k}"),
+        }
+    } else if neg {
+        format!("-0{}", &k[1..])
+    } else {
+        k.to_string()
+    }
+}
+/// gives the `*at`-th non-empty object (pre-order) of `j` a repeated key
+fn j_dup(j: &mut J, at: &mut isize, r: &mut Rng) {
+    if *at < 0 {
+        return;
+    }
+    match j {
+        J::Arr(a) => {
+            for x in a.iter_mut() {
+                j_dup(x, at, r)
+            }
+        }
+        J::Obj(o) => {
+            if !o.is_empty() {
+                if *at == 0 {
+                    *at = -1;
+                    let i = r.below(o.len());
+                    let k = o[i].0.clone();
+                    let other = o[r.below(o.len())].1.clone();
+                    let ill = match r.below(4) {
+                        0 => J::Null,
+                        1 => J::Str("x".into()),
+                        2 => J::Bool(true),
+                        _ => J::Num(r.pick(NUM_POOL).to_string()),
+                    };
+                    match r.below(8) {
+                        // the same key again, after the original: the new value wins in a map
+                        0 => o.push((k, other)),
+                        // ... before the original: the original wins, the copy is still deserialized
+                        1 => o.insert(0, (k, other)),
+                        // an ill-typed value under the repeated key, overwritten by the original
+                        2 => o.insert(r.below(i + 1), (k, ill)),
+                        // ... or overwriting it
+                        3 => o.push((k, ill)),
+                        // a key that reads as the same integer ("+1", "01"): one key of an integer-keyed map
+                        4 => {
+                            let k2 = respell_key(&k, r);
+                            let at = r.below(o.len() + 1);
+                            o.insert(at, (k2, other))
+                        }
+                        // three occurrences
+                        5 => {
+                            let v0 = o[i].1.clone();
+                            o.insert(0, (k.clone(), other));
+                            o.push((k, v0));
+                        }
+                        // every entry twice, in order
+                        6 => {
+                            let c = o.clone();
+                            o.extend(c);
+                        }
+                        // a repeated key that no struct declares (skipped twice) / a fresh map key twice
+                        _ => {
+                            let uk = "zz\u{1}extra".to_string();
+                            let v0 = o[i].1.clone();
+                            o.insert(r.below(o.len() + 1), (uk.clone(), v0.clone()));
+                            o.insert(r.below(o.len() + 1), (uk, v0));
+                        }
+                    }
+                    return;
+                }
+                *at -= 1;
+            }
+            for (_, x) in o.iter_mut() {
+                j_dup(x, at, r)
+            }
+        }
+        _ => (),
+    }
+}
 fn mutated_value<T: Fam>(d: &T, seed: u64) -> Option<Value> {
-    if seed % 3 != 0 {
+    if seed % 3 != 0 && seed % 6 != 1 {
         return None;
     }
     let v = to_value(d).ok()?;
     let mut j = j_of(&v);
     let mut r = Rng::new(seed ^ 0x5EED_C16);
-    let mut at = r.below(j_count(&j)) as isize;
-    j_edit(&mut j, &mut at, &mut r);
+    if seed % 3 == 0 {
+        let mut at = r.below(j_count(&j)) as isize;
+        j_edit(&mut j, &mut at, &mut r);
+    } else {
+        // repeated keys
+        let n = j_objects(&j);
+        if n == 0 {
+            return None;
+        }
+        let mut at = r.below(n) as isize;
+        j_dup(&mut j, &mut at, &mut r);
+    }
     Some(j_to(&j))
 }
 
@@ -1501,6 +1632,8 @@ roots! {
     "Color" => Color, "Shape" => Shape, "Msg" => Msg, "Tree" => Tree, "Expr" => Expr, "Renamed" => Renamed,
     "VecMsg" => Vec<Msg>, "OptTree" => Option<Tree>, "MapStrExpr" => BTreeMap<String, Expr>,
     "Degenerate" => Degenerate, "VecDegenerate" => Vec<Degenerate>, "TokMap" => TokMap, "OptTokMap" => Option<TokMap>,
+    "HashStrI32" => FixedHashMap<String, i32>, "HashU8Str" => FixedHashMap<u8, String>,
+    "HashCharVec" => FixedHashMap<char, Vec<f32>>,
 }
 
 pub fn eval(line: &str) -> String {
